@@ -199,10 +199,23 @@ def twin_check(ctx, label, key_a, key_b, spec, outputs, requires, node_terms=Non
     spec.build()
     req = spec.base() + list(requires(spec))
     facts = all_facts(pa, pb)
+    # first pass: which output equalities are provable quickly; they serve as lemmas for the others
+    # (adding a proved, i.e. valid, formula to the assumptions is sound)
+    goals = {}
     for k, name, mode in outputs:
         idx = spec.r if mode == "branch" else spec.q
-        goal = pair_goal(pa, pb, k, idx, "set" if mode == "set" else "val")
-        assum = req + facts
+        goals[k] = pair_goal(pa, pb, k, idx, "set" if mode == "set" else "val")
+    quick = {}
+    from . import val as _V
+    for k, name, mode in outputs:
+        r0 = solve.prove(req + facts + _V.trans_axioms(), goals[k], timeout_ms=2000, use_cvc5=False,
+                         rlimit=2000000, quick=True)
+        quick[k] = r0["verdict"] == "proved"
+    for k, name, mode in outputs:
+        idx = spec.r if mode == "branch" else spec.q
+        goal = goals[k]
+        lemmas = [] if quick[k] else [goals[j] for j in goals if j != k and quick[j]]
+        assum = req + facts + lemmas
 
         def replay(m, _assum=assum, _goal=goal, _name=name, _k=k, _mode=mode):
             small = spec.small_world()
